@@ -331,6 +331,7 @@ pub fn c15(a: &Args, rep: &mut Report) {
     });
     giant_cells(a, rep, "C15", &[3000, 12000], &[3000, 12000, 12000, 25000, 40000, 70000], |c, rep| one_c15("C15", c, rep));
     wedge_cells(a, rep, "C15", 3000, 40000, |c, rep| one_c15("C15", c, rep));
+    drum_cells(a, rep, "C15", &DRUM_QUICK, &DRUM_THOROUGH, |c, rep| one_c15("C15", c, rep));
 }
 
 // ------------------------------------------------------------------------------------------------
@@ -364,7 +365,7 @@ pub fn one_c18(prop: &str, c: &Case, rep: &mut Report) {
     let mut nontrivial = false;
     for t in 0..ncell {
         // the centre of a star (generator 0) is the cell with the many planes: always replay it
-        let i = if t == 0 && c.family == "star" { 0 } else { r.below(n) };
+        let i = if t == 0 && (c.family == "star" || c.family == "drum") { 0 } else { r.below(n) };
         let seq = match guarded(|| verif::nn_sequence(&c.pts, i, w, dimn(c.dim), c.periodic, 40000)) {
             Ok(s) => s,
             Err(p) => {
@@ -520,4 +521,6 @@ pub fn c18(a: &Args, rep: &mut Report) {
         let c = gen_case("C18", &a.tier, a.seed, k, &o);
         one_c18("C18", &c, rep);
     });
+    // drums: one clip removes the m vertices of a whole end cap (sampled permutations of a removed set of m)
+    drum_cells(a, rep, "C18", &DRUM_QUICK[..20], &DRUM_THOROUGH[..26], |c, rep| one_c18("C18", c, rep));
 }
